@@ -50,6 +50,8 @@ class World:
         self.handle_mode, self.ctx_mode = handle_mode, ctx_mode
         self.map_mode = None                      # access mode of the shared map while it is open
         self.badopen_done = False
+        self.kept = []                            # (value returned by an earlier read, its bytes at that moment)
+        self.kept_flags = [False, False]
         self.wd = wd
         self.gens = list(gens)
         self.ctxs = list(ctxs)
@@ -103,7 +105,7 @@ class World:
 
     def abstract(self):
         return {'gens': {g: self.gstate[g] for g in self.gens}, 'ctxs': dict(self.cstate), 'toggle': list(self.toggle),
-                'badopen': self.badopen_done, 'map_mode': self.map_mode}
+                'badopen': self.badopen_done, 'map_mode': self.map_mode, 'kept': list(self.kept_flags)}
 
     # ------------------------------------------------------------------ one action on the real object
     def _user_starts(self, name):
@@ -220,9 +222,15 @@ class World:
             elif kind == 'read':
                 c = act[1]
                 kk = KS[c]
-                got = a[kk]
-                if checking and not (np.asarray(got).shape == () and float(got) == float(self.model[kk])):
-                    bad('element read differs from the contents', f'a[{kk}] returned {got!r}, contents are {self.model[kk]}')
+                got = a[kk - 1:kk + 2]                  # a small slice around the cell
+                want = self.model[kk - 1:kk + 2]
+                if checking and not (isinstance(got, np.ndarray) and got.shape == want.shape and np.array_equal(got, want)):
+                    bad('element read differs from the contents', f'a[{kk - 1}:{kk + 2}] returned {got!r}, contents are {want!r}')
+                # a value once returned must stay what it was: the first slice of each cell that was read while other users
+                # hold the array open is kept (and is part of the state, so that later writes and closings follow it)
+                if isinstance(got, np.ndarray) and self.live_users() and not self.kept_flags[c]:
+                    self.kept.append((got, got.tobytes()))
+                    self.kept_flags[c] = True
                 label = f'read{self.toggle[c]}'
             elif kind == 'write':
                 c = act[1]
@@ -257,6 +265,11 @@ class World:
         return not self.live_users()
 
     def state_invariant(self):
+        for arr, raw in self.kept:
+            # reading a value that Darr handed out earlier (a view on a map that was closed would kill this process)
+            if arr.tobytes() != raw:
+                return [({'oracle': 'sched', 'op': 'read', 'symptom': 'a value returned earlier changed afterwards', 'diverged': True},
+                         f'a slice returned by an earlier read now holds {arr!r:.60}: it was not detached from the shared map', {})]
         if not self.quiescent():
             return []
         gc.collect()
